@@ -210,15 +210,27 @@ def query_regions(q) -> set:
     rep_arg = []
     disj_under_not = []
     mixed = []
+    mixed_conj_in_disj = []
 
     def fn(t, under):
         k = t[0]
-        if (k == "or" or (k == "and" and "not" in under)) and len({frozenset(_vars_in(x)) for x in t[1:]}) > 1:
+        is_disj = (k == "or" and under.count("not") % 2 == 0) or (k == "and" and under.count("not") % 2 == 1)
+        is_conj = (k == "and" and under.count("not") % 2 == 0) or (k == "or" and under.count("not") % 2 == 1)
+        if is_conj and len({frozenset(_vars_in(x)) for x in t[1:]}) > 1:
+            # a conjunction over different variable sets fails with only part of the variables bound
+            neg = 0
+            for u in under:
+                if u == "not":
+                    neg += 1
+                elif (u == "or" and neg % 2 == 0) or (u == "and" and neg % 2 == 1):
+                    mixed_conj_in_disj.append(1)
+                    break
+        if is_disj and len({frozenset(_vars_in(x)) for x in t[1:]}) > 1:
             mixed.append(1)
+        if is_disj:
+            disj_under_not.append(1)
         if k in ("and", "or", "not", "forall", "nest", "flat", "cat", "fp", "cp"):
             kinds.add(k)
-        if k == "and" and "not" in under:
-            disj_under_not.append(1)      # not(and(..)) is rewritten into a disjunction
         if k in ("fp", "cp") and len(t) > 2 and isinstance(t[2], list):
             vs = [repr(_root_var(a)) for a in t[2]]
             vs = [v for v in vs if v != "None"]
@@ -226,7 +238,7 @@ def query_regions(q) -> set:
                 rep_arg.append(1)
     _walk(q.get("conds", []), fn)
     _walk(q.get("rule", {}), fn)
-    disj = "or" in kinds or bool(disj_under_not)
+    disj = bool(disj_under_not)        # a disjunction after the engine's De Morgan rewriting
     out = set()
     if disj and "forall" in kinds:
         out.add("disjunction+for_all")
@@ -238,6 +250,8 @@ def query_regions(q) -> set:
         out.add("predicate_with_repeated_variable")
     if mixed:
         out.add("disjunction_over_different_variables")
+    if mixed_conj_in_disj:
+        out.add("disjunction_of_multi_variable_conjunction")
     return out
 
 
@@ -287,8 +301,11 @@ def gen_world_and_pool(rng, cfg, want_region=None, tries=60):
             # steer the vocabulary toward the region
             need = {"disjunction+for_all": ["forall"], "disjunction+flatten": ["flat"],
                     "disjunction+nested_query": ["nest"], "predicate_with_repeated_variable": ["fp", "cp"],
-                    "disjunction_over_different_variables": []}[want_region]
-            if want_region == "disjunction_over_different_variables":
+                    "disjunction_over_different_variables": [],
+                    "disjunction_of_multi_variable_conjunction": []}[want_region]
+            if want_region == "disjunction_of_multi_variable_conjunction":
+                cfg["depth"] = max(cfg["depth"], 2)
+            if want_region in ("disjunction_over_different_variables", "disjunction_of_multi_variable_conjunction"):
                 cfg["n_vars"] = max(cfg["n_vars"], 2)
             cfg["vocab"] = sorted(set(cfg["vocab"]) | set(need))
             cfg["depth"] = max(cfg["depth"], 1)
@@ -299,7 +316,12 @@ def gen_world_and_pool(rng, cfg, want_region=None, tries=60):
             if query_regions(q):
                 q["conds"] = []
         return world, pool
-    return last
+    # could not hit the wanted region exactly: keep only queries that are in that region alone or in none
+    world, pool = last
+    for q in pool["queries"]:
+        if query_regions(q) - {want_region}:
+            q["conds"] = []
+    return world, pool
 
 
 # ------------------------------------------------------------------------------------------ rules / inference
